@@ -153,6 +153,27 @@ def make_box(name, n, p=1, extra_row=False):
                     got = rv(row[j]) * rv(row[j]) if name == "CUSUM" else rv(row[j])
                     acc.oblige(eng, "O3.value_is_definition", got == want, dict(info, cut=cut, col=j))
             acc.sample(dict(info, accepted_cut=cut))
+            if pinned is True and valid_concrete(name, cut, n, ms) and acc.total("witness_tried") < 40:
+                # float witness: the returned term at a data point vs the native run on the same cut
+                from symnp.witness import FloatEval, close
+                acc.inc("witness_tried")
+                rng = np.random.default_rng(sum(cut) + 7 * n)
+                Xf = rng.integers(-12, 13, size=(n, p)) / 4.0
+                env = {f"x_{i}_{j}": Xf[i, j] for i in range(n) for j in range(p)}
+                env.update({f"c{i}": c for i, c in enumerate(cut)})
+                fe = FloatEval(env, eng)
+                try:
+                    with proxy.native():
+                        nat = build(name, p)[0].fit(Xf).evaluate(np.array([cut]))
+                    ok = all(close(float(nat[0, j]), float(fe(rv(out[-1][j]))), 1e-7, 1e-7) for j in range(nat.shape[1]))
+                except RuntimeError:
+                    ok = None
+                except Exception as ex:
+                    ok = False
+                if ok is True:
+                    acc.inc("witness_ok")
+                elif ok is False:
+                    acc.error(f"C13 witness mismatch {name} cut {cut}")
 
     return Harness(run, base, sliced=True, timeout_ms=25000 if (n <= 4 and p == 1) else 40000, name=f"box {info}")
 
